@@ -281,9 +281,9 @@ class PartitionedArray(object):
                 )
 
             elif head is Ellipsis:
-                return IrregularlyPartitionedArray(
-                    [x[(head,) + tail] for x in self.partitions]
-                )
+                # the items after the Ellipsis may reach the first dimension,
+                # which is not local to a partition
+                return self.toContent()[(head,) + tail]
 
             elif isinstance(head, str) or (
                 ak._util.py27 and isinstance(head, ak._util.unicode)
